@@ -218,6 +218,15 @@ class Executor:
         m = getattr(self, 'st_' + type(node).__name__, None)
         if m is None:
             raise Unsupported('statement %s at line %d' % (type(node).__name__, node.lineno))
+        from vt.e1 import values as _V
+
+        def decide(cond, state=state):
+            if not self.feasible(state, z3.Not(cond)):
+                return True
+            if not self.feasible(state, cond):
+                return False
+            return None
+        _V.PROVER['decide'] = decide
         simple = isinstance(node, (ast.Assign, ast.AugAssign, ast.Expr, ast.Return))
         pre = state.clone() if (simple and _may_fork(node)) else None
         try:
